@@ -361,13 +361,47 @@ func (m *Model) NormText() string { return NormText(m.D) }
 // ---- the search ----------------------------------------------------------------
 
 type C16Job struct {
+	Populated int // 0 = start from the empty database, 1 / 2 = from populated state A / B
 	First int // index of the first transaction of every path this job explores
 	Depth int
 	Tier  string
 	Pairs bool
 }
 
-func (j *C16Job) Name() string { return fmt.Sprintf("C16/first=%03d", j.First) }
+func (j *C16Job) Name() string {
+	if j.Populated > 0 {
+		return fmt.Sprintf("C16/populated-%d/first=%03d", j.Populated, j.First)
+	}
+	return fmt.Sprintf("C16/first=%03d", j.First)
+}
+
+// populatedPrefix: a non-initial state with two rows in most tables (two promises of
+// which one is completed, registrations, two schedules, tasks in several states, locks)
+func populatedPrefix(alpha []Tx, which int) []int {
+	// A: promise-centric (pending + completed promise, registrations, schedules, locks)
+	want := []string{"CreatePromise(p1,to=5,ik=a)", "CreatePromise(p2,to=10,ik=)", "CreateCallback(c1p1->p1)", "CreateCallback(c2p2->p2)", "Complete4(p1)", "CreateSchedule(s1,next=5)", "CreateSchedule(s2,next=10)",
+		"CreateTask(t1,state=1)", "UpdateTask(c1p1,claim(c=1))", "AcquireLock(l1,e1,w1)", "AcquireLock(l2,e2,w1)"}
+	if which == 2 {
+		// B: task-centric (a finished task that still carries its process id, a claimed task,
+		// an init task whose sibling of the same root is claimed, an init task on another root)
+		want = []string{"CreatePromise(p1,to=5,ik=a)", "CreateCallback(c1p1->p1)", "CreateCallback(c2p1->p1)", "CreateTask(t1,state=4)", "Complete4(p1)", "UpdateTask(c1p1,claim(c=1))",
+			"CreatePromise(p2,to=10,ik=)", "CreateCallback(c1p2->p2)", "Complete4(p2)", "AcquireLock(l1,e1,w2)"}
+	}
+	var out []int
+	for _, w := range want {
+		found := false
+		for i, t := range alpha {
+			if t.Label == w {
+				out = append(out, i)
+				found = true
+			}
+		}
+		if !found {
+			panic("storex: populated prefix: no transaction " + w)
+		}
+	}
+	return out
+}
 
 type node struct {
 	path  []int
@@ -473,11 +507,23 @@ func (j *C16Job) Run(deadline time.Time) *runner.JobResult {
 	}
 
 	root := &node{model: NewModel()}
+	if j.Populated > 0 {
+		for _, ti := range populatedPrefix(alpha, j.Populated) {
+			nm := step(root, ti)
+			if nm == nil {
+				if len(res.Violations) == 0 {
+					res.HarnessErr = "the populated prefix does not apply: " + alpha[ti].Label
+				}
+				return res
+			}
+			root = &node{path: append(append([]int{}, root.path...), ti), model: nm}
+		}
+	}
 	m1 := step(root, j.First)
 	seen := map[string]bool{}
 	var frontier []*node
 	if m1 != nil {
-		frontier = []*node{{path: []int{j.First}, model: m1}}
+		frontier = []*node{{path: append(append([]int{}, root.path...), j.First), model: m1}}
 		seen[stateKey(m1)] = true
 	}
 	var all []*node
@@ -525,7 +571,7 @@ func (j *C16Job) Run(deadline time.Time) *runner.JobResult {
 			res.HarnessErr = err.Error()
 			return res
 		}
-		limit := 3
+		limit := 1
 		if j.Tier == "thorough" {
 			limit = 40
 		}
